@@ -101,10 +101,13 @@ static RMatL sym_from_spectrum(Rng& r, const RVecL& d)
     return A;
 }
 
-static RMatL sym_sparse(Rng& r, long n)
+// level 0: the default density (about 5 off-diagonal entries per row at n = 40); level k > 0: about k per row. Sparse
+// direct solvers (elimination-tree post-ordering, supernode relaxation) only take visibly different paths on patterns
+// that sparse
+static RMatL sym_sparse(Rng& r, long n, int level = 0)
 {
     RMatL A = RMatL::Zero(n, n);
-    const double dens = std::min(1.0, 3.0 / (double) n + 0.05);
+    const double dens = level > 0 ? std::min(1.0, (double) level / (double) n) : std::min(1.0, 3.0 / (double) n + 0.05);
     for (long j = 0; j < n; j++)
         for (long i = j + 1; i < n; i++)
             if (r.chance(dens)) A(i, j) = A(j, i) = urand(r);
@@ -133,7 +136,7 @@ static RMatL sym_matrix(Rng& r, const WorldSpec& w, long n, int mclass)
         case M_REPEATED:
             return sym_from_spectrum(r, spectrum(r, mclass, n));
         case M_SPARSEPAT:
-            return sym_sparse(r, n);
+            return sym_sparse(r, n, w.rank);
         case M_BLOCKDIAG:
         {
             long nb = std::min<long>(std::max<long>(w.nblock, 1), n - 1);
@@ -230,7 +233,7 @@ static RMatL gen_matrix(Rng& r, const WorldSpec& w, long n, int mclass)
 }
 
 // SPD matrix with condition number ~ kappa; sparse pattern (diagonally dominant) if sparse
-static RMatL spd_matrix(Rng& r, long n, ld kappa, bool sparse)
+static RMatL spd_matrix(Rng& r, long n, ld kappa, bool sparse, long deg = 3)
 {
     RVecL d(n);
     for (long i = 0; i < n; i++)
@@ -247,13 +250,12 @@ static RMatL spd_matrix(Rng& r, long n, ld kappa, bool sparse)
     }
     RMatL B = RMatL::Zero(n, n);
     for (long i = 0; i < n; i++) B(i, i) = d[i];
-    const long deg = 3;
     for (long i = 0; i < n; i++)
         for (long k = 0; k < deg; k++)
         {
             long j = (long) r.below((uint64_t) n);
             if (j == i) continue;
-            ld v = 0.1L * std::min(d[i], d[j]) / (ld) (2 * deg) * urand(r);
+            ld v = 0.1L * std::min(d[i], d[j]) / (ld) (2 * std::max<long>(deg, 1)) * urand(r);
             B(i, j) += v;
             B(j, i) += v;
         }
@@ -343,7 +345,7 @@ void gen_matrices(const WorldSpec& w, MatL& A, MatL& B)
         if (w.mclass == M_BLOCKDIAG)
             B = widen(spd_blockdiag(r, n, std::min<long>(std::max<long>(w.nblock, 1), n - 1), (ld) w.kappaB, (w.variant & 2) != 0));
         else
-            B = widen(spd_matrix(r, n, (ld) w.kappaB, (w.variant & 2) != 0));
+            B = widen(spd_matrix(r, n, (ld) w.kappaB, (w.variant & 2) != 0, (w.mclass == M_SPARSEPAT && w.rank > 0) ? (w.rank >= 2 ? 1 : 0) : 3));
     }
 }
 
